@@ -587,6 +587,29 @@ class RunModel(Analysis):
         g = self.roles.guard_attr
         if g and term == T.mk(('attr', T.SELF, g)) and not val:
             st = st.set(gtested=True)
+        if val and term[0] == 'call' and term[1] == 'all' and len(term[2]) == 1 and term[2][0][0] == 'comp':
+            # `all(t.done() for t in X)` holds: X holds no unfinished task. If X was cancelled before, that is
+            # the outcome of a tidy (a wait loop that ends on this test rather than on the wait itself)
+            c = term[2][0]
+            elt, gens = c[2], c[3]
+            if len(gens) == 1 and not gens[0][2] and elt[0] == 'mcall' and elt[2] == 'done' \
+                    and elt[1][0] == 'elem' and elt[1][1] == gens[0][1]:
+                x = gens[0][1]
+                argof = dict(st.a('argof', ()))
+                live = st.a('live', frozenset())
+                sl = st.a('shut_live', frozenset())
+                was_cancelled = x in st.a('cancelled', frozenset())
+                if live and (all(covers(x, i, argof) for i in live) or self.registry_cover(x)):
+                    ph = st.a('phase', 'NoTasks')
+                    if was_cancelled:
+                        self.ev(ip, 'TIDY', node, st, fr, coll=x, what='jobs', phase=ph)
+                        st = self.with_cause(st) if st.a('cause') is not None else st.set(cause=self.cause_of(st))
+                    st = st.set(live=frozenset(), phase='Tidied' if ph == 'Live' else ph)
+                    st = st.note(ip.where(node, fr), "every task of %s is done" % T.show(x, 3))
+                elif sl and all(covers(x, i, argof) for i in sl):
+                    if was_cancelled:
+                        self.ev(ip, 'TIDY', node, st, fr, coll=x, what='shutdown', phase=st.a('phase', 'NoTasks'))
+                    st = st.set(shut_live=frozenset(), shut_tidied=True)
         if not val:
             # a collection known to be empty holds no unfinished task
             argof = dict(st.a('argof', ()))
